@@ -65,6 +65,62 @@ def gen_lifecycle(rng, tier, max_gens=4, max_ops=25):
     return lines
 
 
+def gen_same_wait(rng, tier):
+    """C09: several coroutines yield the SAME positive wait in the same frame (equal deadlines in
+    the wait heap); then waiting ones are killed and immediately started again - from outside, or
+    by a controller coroutine from its body - each in turn; then enough frames to pass the deadline.
+    A restart must not disturb anybody else's wait, the restarted one must not wake a second time."""
+    n = rng.randint(2, 4)
+    w = rng.choice([4, 8, 16, 24, 40])
+    lead = rng.choice([0, 0, 1])                     # frames before the common sleep
+    victims = list(range(n))
+    rng.shuffle(victims)
+    victims = victims[:rng.randint(1, n)]
+    in_body = rng.random() < 0.35
+    lines = []
+    for g in range(n):
+        second = rng.choice(['N', '1', str(w), str(2 * w), '800'])
+        steps = ['yield N'] * lead + [f'yield {w}', f'yield {second}', f'yield {rng.choice(WAITS)}',
+                                      f'ret {rng.choice(["N", "3", "7"])}']
+        lines.append(f'gen {g} : ' + ' | '.join(steps))
+    if in_body:
+        acts = []
+        for v in victims:
+            acts += [f'kill {v}', f'start {v}'] + ([f'state {v}'] if rng.random() < 0.5 else [])
+        ctl = ['yield N'] * (lead + 1) + [' ; '.join(acts + ['yield N']), 'yield N', 'ret N']
+        lines.append(f'gen {n} : ' + ' | '.join(ctl))
+    order = list(range(n))
+    rng.shuffle(order)
+    for g in order:
+        lines.append(f'op start {g}')
+    if in_body:
+        lines.append(f'op start {n}')
+    dt = rng.choice([1, 2, 4, w // 4 or 1])
+    for _ in range(lead + 1):
+        lines.append(f'op process {dt}')
+    if not in_body:
+        for v in victims:
+            if rng.random() < 0.3:
+                lines.append(f'op process {rng.choice([0, 1])}')
+            lines.append(f'op kill {v}')
+            if rng.random() < 0.15:
+                lines.append(f'op state {v}')
+            lines.append(f'op start {v}')
+            if rng.random() < 0.3:
+                lines.append(f'op state {v}')
+    elapsed = 0
+    while elapsed <= 2 * w + 8:
+        d = rng.choice([dt, dt, 1, 4, 8])
+        lines.append(f'op process {d}')
+        elapsed += d
+        if rng.random() < 0.08:
+            v = rng.randrange(n)
+            lines += [f'op kill {v}', f'op start {v}']
+    for g in range(n):
+        lines.append(f'op value {g}')
+    return lines
+
+
 # small-scope exhaustive enumeration -------------------------------------------------------------
 ENUM_SCRIPTS = [
     # a waiter that a second generator kills and restarts from its body
@@ -73,7 +129,11 @@ ENUM_SCRIPTS = [
     # self-kill / self-restart, start of a third generator from a body
     ['gen 0 : kill 0 ; start 0 ; yield 4 | kill 0 ; yield N | ret N',
      'gen 1 : start 0 ; yield 8 | kill 0 ; ret 3'],
+    # two sleepers with exactly the same deadline (family 2 is enumerated behind ENUM_PREFIX[2])
+    ['gen 0 : yield 8 | yield 4 | ret 0',
+     'gen 1 : yield 8 | yield 16 | ret 1'],
 ]
+ENUM_PREFIX = {2: ['op start 0', 'op start 1', 'op process 4']}
 ENUM_OPS = ['start 0', 'kill 0', 'start 1', 'kill 1', 'process 4', 'process 8']
 
 
@@ -83,4 +143,4 @@ def enum_lifecycle(max_len, families=(0,)):
     for f in families:
         for n in range(1, max_len + 1):
             for ops in itertools.product(ENUM_OPS, repeat=n):
-                yield ENUM_SCRIPTS[f] + [f'op {o}' for o in ops]
+                yield ENUM_SCRIPTS[f] + ENUM_PREFIX.get(f, []) + [f'op {o}' for o in ops]
